@@ -470,6 +470,10 @@ impl UnionMerger {
     pub fn schema(vs: Vec<Runtype>) -> Runtype {
         let mut acc = Self::new();
         acc.consume(vs);
+        // T | T is T (the members are a set): Omit<T | T, "k"> must still see an object type
+        if acc.0.len() == 1 {
+            return acc.0.into_iter().next().expect("we just checked len");
+        }
         Runtype::new(RuntypeKind::AnyOf(acc.0))
     }
 }
